@@ -46,10 +46,15 @@ structure Fixes where
   head10 : Bool := false
   /-- notes/fixes/C15-edc-substitution-xsd10.patch: XSD 1.0 `is_consistent` walks `iter_substitutes()` -/
   edc10 : Bool := false
+  /-- notes/fixes/C15-edc-loop-variable.patch (finding C15-F4): in `is_consistent` the loop variable of the first,
+      unsuccessful search (`for e1 in self.iter_substitutes()`) no longer leaks into the type comparison.
+      `false` = the code as it is: when `self` has substitutes, none of them is named like `other`, and `other` has a
+      substitute named like `self`, the type compared is that of the LAST substitute of `self`, not of `self`. -/
+  edcLoop : Bool := false
   deriving Repr, Inhabited, DecidableEq
 
 /-- every proposed repair applied (notes/fixes/C15-all-combined.patch) -/
-def Fixes.all : Fixes := { shared := true, repSeq := true, head10 := true, edc10 := true }
+def Fixes.all : Fixes := { shared := true, repSeq := true, head10 := true, edc10 := true, edcLoop := true }
 
 structure Ctx where
   A : Arena
@@ -132,7 +137,9 @@ def Ctx.consistent (e pe : Nat) : Bool :=
     else match a.subs.find? (fun x => x.1 == b.name) with
       | some e1 => e1.2 == b.ty
       | none => match b.subs.find? (fun x => x.1 == a.name) with
-        | some e2 => a.ty == e2.2
+        | some e2 =>
+          -- `e1` is `self` only if the first loop did not run: Python leaves the last substitute in `e1`
+          (if M.fx.edcLoop then a.ty else (a.subs.getLast?.map (·.2)).getD a.ty) == e2.2
         | none => true
 
 /-! ### distinguishable_paths (models.py:36-98) -/
